@@ -236,3 +236,39 @@ package sstables
 //@ iface SSTableReaderI.MetaData
 //@   ensures r0 == rmeta(this) && r0 != nil
 //@   pure
+
+// Reader construction and scanning as seen by compaction / flush / recovery (assumed until C03/C09 verify them).
+
+//@ func ReadBasePath
+//@   assumed
+//@   modifies nothing
+//@ func ReadWithKeyComparator
+//@   assumed
+//@   modifies nothing
+//@ func ReadBufferSizeBytes
+//@   assumed
+//@   modifies nothing
+
+//@ func NewSSTableReader
+//@   assumed
+//@   ensures r1 == nil ==> r0 != nil
+//@   ensures r1 != nil ==> r0 == nil
+//@   fresh r0
+//@   modifies nothing
+
+//@ iface SSTableReaderI.Scan
+//@   ensures r1 == nil ==> r0 != nil && itPos(r0) == 0
+//@   fresh r0
+//@   modifies nothing
+
+// rclosed(r): number of Close calls on reader r
+
+//@ ghost rclosed(r Ref) Int
+//@ iface SSTableReaderI.Close
+//@   ensures rclosed(this) == old(rclosed(this)) + 1
+//@   modifies rclosed(this)
+
+//@ func NewSSTableMerger
+//@   props C08
+//@   ensures r0.comp == comp
+//@   modifies nothing
